@@ -10,6 +10,7 @@ import (
 	"go/ast"
 	"go/constant"
 	"go/parser"
+	"go/printer"
 	"go/token"
 	"os"
 	"path/filepath"
@@ -157,6 +158,33 @@ func funcDecl(f *ast.File, name string) *ast.FuncDecl {
 	return nil
 }
 
+func rootIdent(e ast.Expr) string {
+	for {
+		switch v := e.(type) {
+		case *ast.Ident:
+			return v.Name
+		case *ast.SelectorExpr:
+			e = v.X
+		case *ast.IndexExpr:
+			e = v.X
+		case *ast.StarExpr:
+			e = v.X
+		case *ast.ParenExpr:
+			e = v.X
+		case *ast.CallExpr:
+			e = v.Fun
+		default:
+			return ""
+		}
+	}
+}
+
+func exprString(e ast.Expr) string {
+	var sb strings.Builder
+	printer.Fprint(&sb, fset, e)
+	return sb.String()
+}
+
 func main() {
 	repo := flag.String("repo", "/repo", "")
 	outDir := flag.String("out", "", "")
@@ -261,6 +289,119 @@ func main() {
 			pairs = append(pairs, fmt.Sprintf("(%s, %s)", leanStr(kv[0]), leanStr(regexVar[kv[1]])))
 		}
 		o.lines = append(o.lines, fmt.Sprintf("def flagRegexes : List (String × String) := [%s]", strings.Join(pairs, ", ")))
+	}
+
+	// ---- shape facts (aliasing / mutation discipline, first-update-wins guard, ResolverError body)
+	{
+		bf := parse(filepath.Join(*repo, "grpcgcp/gcp_balancer.go"))
+		clones, writesParam := false, false
+		if fd := funcDecl(bf, "initializeConfig"); fd != nil && fd.Type.Params != nil && len(fd.Type.Params.List) == 1 {
+			param := fd.Type.Params.List[0].Names[0].Name
+			ast.Inspect(fd.Body, func(n ast.Node) bool {
+				switch v := n.(type) {
+				case *ast.CallExpr:
+					if se, ok := v.Fun.(*ast.SelectorExpr); ok && se.Sel.Name == "Clone" && len(v.Args) == 1 && rootIdent(v.Args[0]) == param {
+						clones = true
+					}
+				case *ast.AssignStmt:
+					for _, l := range v.Lhs {
+						if _, isIdent := l.(*ast.Ident); !isIdent && rootIdent(l) == param {
+							writesParam = true
+						}
+					}
+				case *ast.IncDecStmt:
+					if rootIdent(v.X) == param {
+						writesParam = true
+					}
+				}
+				return true
+			})
+		}
+		// every call of initializeConfig sits inside `if gb.cfg == nil`
+		guarded, calls := 0, 0
+		for _, d := range bf.Decls {
+			fd, ok := d.(*ast.FuncDecl)
+			if !ok || fd.Body == nil {
+				continue
+			}
+			var walk func(n ast.Node, inGuard bool)
+			walk = func(n ast.Node, inGuard bool) {
+				ast.Inspect(n, func(m ast.Node) bool {
+					if ifs, ok := m.(*ast.IfStmt); ok && m != n {
+						g := inGuard
+						if be, ok := ifs.Cond.(*ast.BinaryExpr); ok && be.Op == token.EQL {
+							if se, ok := be.X.(*ast.SelectorExpr); ok && se.Sel.Name == "cfg" {
+								if id, ok := be.Y.(*ast.Ident); ok && id.Name == "nil" {
+									g = true
+								}
+							}
+						}
+						walk(ifs.Body, g)
+						if ifs.Else != nil {
+							walk(ifs.Else, inGuard)
+						}
+						return false
+					}
+					if ce, ok := m.(*ast.CallExpr); ok {
+						if se, ok := ce.Fun.(*ast.SelectorExpr); ok && se.Sel.Name == "initializeConfig" {
+							calls++
+							if inGuard {
+								guarded++
+							}
+						}
+					}
+					return true
+				})
+			}
+			walk(fd.Body, false)
+		}
+		// ResolverError: nothing but calls on the logger
+		onlyLogs := false
+		if fd := funcDecl(bf, "ResolverError"); fd != nil {
+			onlyLogs = true
+			for _, st := range fd.Body.List {
+				es, ok := st.(*ast.ExprStmt)
+				if !ok {
+					onlyLogs = false
+					continue
+				}
+				ce, ok := es.X.(*ast.CallExpr)
+				if !ok || !strings.Contains(exprString(ce.Fun), ".log.") {
+					onlyLogs = false
+				}
+			}
+		}
+		mf := parse(filepath.Join(*repo, "grpcgcp/gcp_multiendpoint.go"))
+		gmeClones, retClone := false, false
+		if fd := funcDecl(mf, "NewGCPMultiEndpoint"); fd != nil {
+			ast.Inspect(fd.Body, func(n ast.Node) bool {
+				if kv, ok := n.(*ast.KeyValueExpr); ok {
+					if id, ok := kv.Key.(*ast.Ident); ok && id.Name == "gcpConfig" && strings.Contains(exprString(kv.Value), "proto.Clone(") {
+						gmeClones = true
+					}
+				}
+				return true
+			})
+		}
+		if fd := funcDecl(mf, "GCPConfig"); fd != nil && len(fd.Body.List) == 1 {
+			if rs, ok := fd.Body.List[0].(*ast.ReturnStmt); ok && len(rs.Results) == 1 && strings.Contains(exprString(rs.Results[0]), "proto.Clone(") {
+				retClone = true
+			}
+		}
+		b := func(x bool) string {
+			if x {
+				return "true"
+			}
+			return "false"
+		}
+		o.lines = append(o.lines,
+			"def initializeConfigClonesParam : Bool := "+b(clones),
+			"def initializeConfigWritesParam : Bool := "+b(writesParam),
+			fmt.Sprintf("def initializeConfigCalls : Nat := %d", calls),
+			fmt.Sprintf("def initializeConfigGuardedCalls : Nat := %d", guarded),
+			"def resolverErrorOnlyLogs : Bool := "+b(onlyLogs),
+			"def gmeClonesCallerConfig : Bool := "+b(gmeClones),
+			"def gcpConfigReturnsClone : Bool := "+b(retClone))
 	}
 
 	body := "/- GENERATED by tools/extract from /repo's working tree on every run. Do not edit. -/\nnamespace GcpVerif.Generated\n\n" +
